@@ -194,6 +194,7 @@ def check(run):
     c07.check_watson(ck)          # cWMM is in the property's scope: the E-step density is the one whose normaliser the M-step inverts
     c07.close_terms(ck)
     # the M-step of the Gaussian components is the maximiser of the auxiliary function: the weighted mean and the weighted scatter divided by the mass, nothing added
+    c08.check_estimators(run, A)          # (the closed-form estimators of the component trainers: weighted scatter over the observation mass, Tyler update, mean / resultant)
     c08.check_mass_rank(run, A)
     c08.check_gaussian_dispatch(run, A)
     # the model whose likelihood is reported is the model that was fitted: no parameter assigned to an instance that cached quantities of the old one
